@@ -7,7 +7,11 @@ int64_t interesting_int(Rng &r) {
     static const int64_t edges[] = {0, 1, -1, 127, 128, -128, -129, 255, 256, 32767, 32768, -32768, -32769, 65535, 65536,
                                     2147483647LL, 2147483648LL, -2147483648LL, -2147483649LL, 4294967295LL, 4294967296LL,
                                     INT64_MAX, INT64_MIN, INT64_MAX - 1, INT64_MIN + 1};
-    switch (r.below(4)) {
+    switch (r.below(5)) {
+        case 4: {       // decimal boundaries (printing): +-10^k and neighbours
+            int k = (int)r.below(19); int64_t p = 1; for (int i = 0; i < k; i++) p *= 10;
+            int64_t v = p + (int64_t)r.below(3) - 1; return r.chance(1, 2) ? v : -v;
+        }
         case 0: return edges[r.below(sizeof edges / sizeof edges[0])];
         case 1: { int64_t e = edges[r.below(sizeof edges / sizeof edges[0])]; int64_t d = (int64_t)r.below(5) - 2;
                   if ((d > 0 && e > INT64_MAX - d) || (d < 0 && e < INT64_MIN - d)) return e;
@@ -38,7 +42,11 @@ static uint8_t alpha_byte(Rng &r, int alphabet) {
 Bytes gen_bytes(Rng &r, const GenKnobs &k, int maxlen) {
     size_t len;
     unsigned c = (unsigned)r.below(100);
-    if (k.long_strings == 3 && c < 3) len = 65530 + r.below(12);            // around 2^16: beyond every Binson width boundary, a classic 16-bit counter trap
+    if (k.long_strings >= 1 && c >= 96) {            // lengths around powers of two and small multiples that are NOT encoding boundaries
+        static const size_t L[] = {255, 256, 257, 511, 512, 1022, 1023, 1024, 1025, 2044, 2048, 4095, 4096, 4097};
+        len = L[r.below(14)];
+    }
+    else if (k.long_strings == 3 && c < 3) len = 65530 + r.below(12);            // around 2^16: beyond every Binson width boundary, a classic 16-bit counter trap
     else if (k.long_strings >= 2 && c < 4) len = 32760 + r.below(16);
     else if (k.long_strings >= 1 && c < 12) len = 120 + r.below(16);
     else if (c < 30) len = 0;
@@ -75,6 +83,17 @@ static void gen_value(Rng &r, const GenKnobs &k, Node &n, int &budget, int od, i
 
 static void gen_container_body(Rng &r, const GenKnobs &k, Node &n, int &budget, int od, int ad) {
     if (r.chance((unsigned)k.p_empty, 100)) return;
+    if (k.wide > 0 && budget > 0 && r.chance(1, 3)) {
+        // one container with more children than an 8-bit (or 5-, 6-, 7-bit) counter can count; scalars only
+        int want = k.wide;
+        for (int i = 0; i < want; i++) {
+            Node c; c.t = r.chance(1, 2) ? V_INT : V_BOOL; c.i = i; c.b = (i & 1) != 0;
+            if (n.t == V_OBJ) { c.name = Bytes{(uint8_t)('a' + i / 676 % 26), (uint8_t)('a' + i / 26 % 26), (uint8_t)('a' + i % 26)}; }
+            n.kids.push_back(c);
+        }
+        const_cast<GenKnobs &>(k).wide = 0;      // once per document
+        return;
+    }
     int want = 1 + (int)r.below((uint64_t)std::max(1, k.max_kids));
     if (n.t == V_OBJ) {
         std::vector<Bytes> names;
